@@ -1,6 +1,7 @@
 package c09
 
 import (
+	"errors"
 	"fmt"
 	"strings"
 	"sync/atomic"
@@ -655,10 +656,12 @@ func lastReplyBytes(w *world, kind string) []byte {
 // carriesCode: the error is the KDC's KRB-ERROR itself, or an error whose text names the code - unless it is classified as a
 // networking failure: "the request could not be sent" is not the KDC's answer reaching the caller, whatever it quotes.
 func carriesCode(err error, code int32) bool {
-	if ke, ok := err.(messages.KRBError); ok {
-		return ke.ErrorCode == code
+	var kerr messages.KRBError
+	if errors.As(err, &kerr) {
+		return kerr.ErrorCode == code // the KRBError itself, however it is wrapped
 	}
-	if ke, ok := err.(krberror.Krberror); ok && ke.RootCause == krberror.NetworkingError {
+	var cerr krberror.Krberror
+	if errors.As(err, &cerr) && cerr.RootCause == krberror.NetworkingError {
 		return false
 	}
 	s := err.Error()
